@@ -1031,7 +1031,7 @@ def graph_pop(
 ) -> tuple[GraphState, ...]:
   id_to_index: dict[int, Index] = {}
   path_parts: PathParts = ()
-  predicates = tuple(filterlib.to_predicate(filter) for filter in filters)
+  predicates = filterlib.filters_to_predicates(filters)
   flat_states: tuple[dict[PathParts, StateLeaf], ...] = tuple(
     {} for _ in predicates
   )
@@ -2316,7 +2316,7 @@ def pop(
 
   id_to_index: dict[int, Index] = {}
   path_parts: PathParts = ()
-  predicates = tuple(filterlib.to_predicate(filter) for filter in filters)
+  predicates = filterlib.filters_to_predicates(filters)
   flat_states: tuple[dict[PathParts, StateLeaf], ...] = tuple(
     {} for _ in predicates
   )
